@@ -5,11 +5,10 @@ import TracklibVerif.Gen.SpatialIndex
 `tracklib/util/geometry.py` (`cartesienne`, `__eval`, `isSegmentIntersects`) equal the hand-written
 `TV.Grid.cartesienne / evalLine / isSegmentIntersects` on all arguments. Bare operation classes only.
 
-Also tied: `SpatialIndex.groundDistanceToUnits` of the CURRENT `tracklib/core/spatial_index.py`, `ZeroDivisionError` on a
-zero cell side included. (`SpatialIndex.__getCell` reads `self.csize` / `self.lsize` since the upper-border repair; its tie
-`tie_getCellR` — prepared and verified, see patches/tie of the XC08 worker — comes back as soon as the declared signature of
-`__getCell` in tools/py2lean.py lists those two attributes. That the executed form returns the value function `getCell`
-the theorems use is the proved `TV.C08.getCell_min_is_identity`.)
+Also tied: `SpatialIndex.__getCell` and `SpatialIndex.groundDistanceToUnits` of the CURRENT
+`tracklib/core/spatial_index.py`. `tie_getCellR` / `tie_groundDistanceToUnits` are about the model's executed forms (`ZeroDivisionError` on a zero
+cell side and the caps `min(index, size)` included); that the executed form returns the value function `getCell` the
+theorems use is the proved `TV.C08.getCell_min_is_identity`.
 `groundDistanceToUnits` adds the Python literal `1` (`(1 : α)`), the model the converted integer
 `((1 : Int) : α)`: `h1` says they are the same number. -/
 namespace TV.Tie.C08
@@ -60,6 +59,29 @@ def liftErr : Grid.Err → Py.Err
 def lift {β : Type} : Grid.Res β → Py.M β
   | .ok v => .ok v
   | .error e => .error (liftErr e)
+
+/-- `__getCell(coord)` as executed — the two range tests, the two divisions (`ZeroDivisionError` included) and the
+caps `min(index, csize)`, `min(index, lsize)` — is the model's `getCellR`. `hz`: the model's `x == 0`
+(`¬ x < 0 ∧ ¬ 0 < x`) is Python's (`x ≤ 0 ∧ 0 ≤ x`) — true in every linear order and of every double that is not NaN.
+(That `getCellR` returns the affine value function `getCell` the theorems use is `TV.C08.getCell_min_is_identity`.) -/
+theorem tie_getCellR (hz : ∀ x : α, Grid.isZero x = Py.feq x 0) (ix : Grid.Index α) (p : α × α) :
+    Gen.SpatialIndex.SpatialIndex_getCell ix.xmin ix.xmax ix.ymin ix.ymax ix.dX ix.dY ix.csize ix.lsize p.1 p.2
+      = lift (Grid.getCellR ix p) := by
+  have hm : ∀ a b : α, Py.fmin a b = Grid.pyMin a b := fun _ _ => rfl
+  simp only [Gen.SpatialIndex.SpatialIndex_getCell, Grid.getCellR, Py.fdiv, hz, hm]
+  by_cases h1 : p.1 < ix.xmin
+  · simp [h1, lift]
+  · by_cases h2 : ix.xmax < p.1
+    · simp [h2, lift]
+    · by_cases h3 : p.2 < ix.ymin
+      · simp [h1, h2, h3, lift]
+      · by_cases h4 : ix.ymax < p.2
+        · simp [h1, h2, h4, lift]
+        · by_cases hx : Py.feq ix.dX 0 = true
+          · simp [h1, h2, h3, h4, hx, lift, liftErr]
+          · by_cases hy : Py.feq ix.dY 0 = true
+            · simp [h1, h2, h3, h4, hx, hy, lift, liftErr]
+            · simp [h1, h2, h3, h4, hx, hy, lift]
 
 /-- `groundDistanceToUnits(distance)`, `ZeroDivisionError` included. `h1`: the Python literal `1` is the converted
 integer `1`; `hz` as in `tie_getCellR`. -/
